@@ -6,6 +6,7 @@
 #include <stdlib.h>
 #include <string.h>
 #include <signal.h>
+#include <sys/time.h>
 #include <unistd.h>
 #include <fcntl.h>
 #include <errno.h>
@@ -202,7 +203,14 @@ void vh_violation(const char * key, const char * fmt, ...) {
 }
 uint64_t vh_violations(void) { return nviol; }
 
-void vh_watchdog(unsigned seconds) { alarm(seconds); }
+/* A case's own budget is CPU time of the process (ITIMER_PROF -> SIGPROF): a library that loops burns CPU, a machine that is busy with other
+ * work does not count against the case. A generous wall-clock alarm stays as a backstop (its firing alone is not a verdict, see the driver). */
+static int cpu_timer_armed;
+void vh_watchdog(unsigned seconds) {
+    struct itimerval it; memset(&it, 0, sizeof it); it.it_value.tv_sec = (time_t) seconds;
+    setitimer(ITIMER_PROF, &it, NULL); cpu_timer_armed = seconds != 0;
+    alarm(seconds ? seconds * 20u + 120u : 0);
+}
 
 /* ---------------------------------------------------------------- output */
 static void dump_results(int fd, int complete) {
@@ -296,6 +304,7 @@ int vh_main(int argc, char ** argv, const char * property, const vh_phase_t * ph
     sigemptyset(&sa.sa_mask);
     sigaction(SIGABRT, &sa, NULL);
     sigaction(SIGALRM, &sa, NULL);
+    sigaction(SIGPROF, &sa, NULL);
 #if !VH_ASAN
     sigaction(SIGSEGV, &sa, NULL);
     sigaction(SIGBUS, &sa, NULL);
@@ -313,14 +322,15 @@ int vh_main(int argc, char ** argv, const char * property, const vh_phase_t * ph
             if (vh_args.replay) { if (vh_args.replay_idx >= n) break; idx = vh_args.replay_idx; }
             else if (vh_args.resume_phase == p && idx < vh_args.resume_idx) continue;
             cur_idx = idx; vh_sub = 0; case_desc[0] = 0;
-            /* watchdog: "no case makes progress for ~2 minutes"; re-armed at most once per second (coarse vDSO clock, no syscall per case) */
-            { struct timespec now; clock_gettime(CLOCK_MONOTONIC_COARSE, &now); if (k++ == 0 || now.tv_sec != last_arm) { alarm(120); last_arm = now.tv_sec; } }
+            /* watchdog: "no case finishes within 150 s of CPU time" (wall-clock backstop 15 minutes); re-armed at most once per second (coarse vDSO clock, no syscall per case) */
+            if (cpu_timer_armed) { cpu_timer_armed = 0; last_arm = 0; }
+            { struct timespec now; clock_gettime(CLOCK_MONOTONIC_COARSE, &now); if (k++ == 0 || now.tv_sec != last_arm) { struct itimerval it; memset(&it, 0, sizeof it); it.it_value.tv_sec = 150; setitimer(ITIMER_PROF, &it, NULL); alarm(900); last_arm = now.tv_sec; } }
             vh_rng_seed(&rng, vh_args.seed, (uint64_t) p, idx);
             phases[p].run(idx, &rng);
             if (vh_args.replay) break;
         }
     }
-    alarm(0);
+    alarm(0); vh_watchdog(0);
     write_hashes();
     dump_results(out_fd, 1);
     if (out_fd >= 0) close(out_fd);
